@@ -275,6 +275,32 @@ lemma rate_of_bounds (x rate : ℝ) (hr : 0 < rate)
   have q2 : rate * Real.pi ≤ rate * 3.1415926536 := mul_le_mul_of_nonneg_left p2.le hr.le
   rw [abs_le]; constructor <;> nlinarith
 
+/-- amplitude of the first term of series 2 of a generated table -/
+lemma lead2_scaled (tbl : List (List Term3)) (a b c : Int) (h : (tbl.getD 2 []).head? = some (a, b, c)) :
+    (((vsopOfScaled tbl).getD 2 []).headD (0, 0, 0)).1 = (a : ℝ) / 10 ^ expA := by
+  match tbl, h with
+  | s0 :: s1 :: (x :: s2) :: rest, h =>
+    have hx : x = (a, b, c) := by simpa using h
+    subst hx
+    simp [vsopOfScaled, termOfScaled, numOfScaled]
+
+/-- a secular acceleration `x` (1e-8 rad per millennium²) against a `T²` coefficient `c` in degrees per
+    century², absolute tolerance `tol`, reduced to two rational inequalities by 10-digit bounds on π -/
+lemma accel_of_bounds (x c tol : ℝ) (hx : 0 ≤ x) (hc : 0 ≤ c - tol)
+    (h1 : x * 180 ≤ (c + tol) * 3.1415926535 * 10000000000)
+    (h2 : (c - tol) * 3.1415926536 * 10000000000 ≤ x * 180) :
+    |x / 100000000 * (180 / Real.pi) / 100 - c| ≤ tol := by
+  have p1 : (3.1415926535 : ℝ) < Real.pi := lt_trans (by norm_num) Real.pi_gt_d20
+  have p2 : Real.pi < (3.1415926536 : ℝ) := lt_trans Real.pi_lt_d20 (by norm_num)
+  have hpi : 0 < Real.pi := Real.pi_pos
+  have e : x / 100000000 * (180 / Real.pi) / 100 - c = (x * 180 - c * Real.pi * 10000000000) / (Real.pi * 10000000000) := by
+    field_simp; ring
+  rw [e, abs_div, abs_of_pos (by positivity : (0 : ℝ) < Real.pi * 10000000000), div_le_iff₀ (by positivity)]
+  have hct : 0 ≤ c + tol := by linarith
+  have q1 : (c + tol) * 3.1415926535 ≤ (c + tol) * Real.pi := mul_le_mul_of_nonneg_left p1.le hct
+  have q2 : (c - tol) * Real.pi ≤ (c - tol) * 3.1415926536 := mul_le_mul_of_nonneg_left p2.le hc
+  rw [abs_le]; constructor <;> nlinarith
+
 /-- a one-term table whose only series is identically zero (witness of `C07.geometric_lon_range_counterexample`) -/
 def zeroTable : VsopTable := [[(0, 0, 0)]]
 
